@@ -149,7 +149,7 @@ def main():
             r = {'tests_pass': tests_ok, 'checks': {}}
             for p in props:
                 t0 = time.time()
-                c = sh(f'cd /verif && ./check {p} quick')
+                c = sh(f'cd /verif && VERIF_EVIDENCE_DIR=/tmp/ev ./check {p} quick')
                 line = [l for l in c.stdout.split('\n') if l.startswith('VIOLATION') or 'BUILD FAILED' in l or 'HARNESS-ERROR' in l]
                 r['checks'][p] = {'exit': c.returncode, 'wall_s': round(time.time() - t0, 1), 'first': (line[0][:160] if line else '')}
             results[mid] = r
